@@ -4,8 +4,8 @@
    Model = Model/Server.v (transcription of server/task.rs, server/request.rs, common/serialize.rs,
    common/frame.rs, types.rs; replies formatted through Model/Format.v into the shared 260-byte
    buffer). Spec = Spec/Modbus.v (reference server written from the protocol text). Both take the
-   application's point handlers H (ANY deterministic state machine), ANY unit map and ANY
-   authorization policy. A frame is what the reader delivers: optional transaction id, destination,
+   application's point handlers H (ANY deterministic state machine), ANY unit map (unit id ->
+   handler object, objects may be shared between unit ids; `ucfg`) and ANY authorization policy. A frame is what the reader delivers: optional transaction id, destination,
    PDU bytes; frame_ok says: PDU bytes are bytes, and a TCP frame carries a transaction id. *)
 From Coq Require Import NArith Arith List String.
 From Rodbus Require Import Base.Outcome Base.ServerTypes Model.Server Model.ServerRender Model.ServerExec Spec.Modbus
@@ -74,7 +74,7 @@ Print Assumptions C01_parse.
    coil, read past the limit (exception 03), unknown function (exception 01), unconfigured unit
    (silence), read of a register whose handler raises exception 4 *)
 Example C01_nonvacuous :
-  run_model (LTcp, [mku 1 3 5 [(2, 1, 4)] [] [] [] [] []], CNone,
+  run_model (LTcp, [(1, 1)], [mku 1 3 5 [(2, 1, 4)] [] [] [] [] []], CNone,
              [mkf (Some 1) (DUnit 1) [1; 0; 0; 0; 10]; mkf (Some 2) (DUnit 1) [5; 0; 7; 255; 0];
               mkf (Some 3) (DUnit 1) [1; 0; 0; 7; 209]; mkf (Some 4) (DUnit 1) [43; 14; 1; 0];
               mkf (Some 5) (DUnit 9) [1; 0; 0; 0; 1]; mkf (Some 6) (DUnit 1) [3; 0; 0; 0; 3]])
